@@ -97,6 +97,14 @@ def derive_regex(rng, name):
     return "^[^a-z]+$"
 
 
+def rx_compile(pat):
+    """Python's `re` is the textbook matcher for =~ only where it and Rust's regex crate read the pattern alike: inside a
+    character class Rust has set operators (`--`, `~~`, `&&`) and nested classes that Python takes literally."""
+    if "[" in pat and (any(x in pat for x in ("--", "~~", "&&")) or "[[" in pat or "[:" in pat):
+        raise re.error("character-class set operators / nested classes: the two regex dialects differ")
+    return re.compile(pat)
+
+
 def expected(op, pat, names, quirk=None):
     if op in ("=", "!="):
         m = set(n for n in names if (model.glob_match(pat, n) if model.is_glob(pat) else n == pat))
@@ -108,7 +116,7 @@ def expected(op, pat, names, quirk=None):
     elif op in ("===", "!=="):
         m = set(n for n in names if n == pat)
     else:
-        rx = re.compile(pat)
+        rx = rx_compile(pat)
         m = set(n for n in names if rx.search(n))
     if op in ("!=", "notlike", "!==", "!=~"):
         return set(names) - m
@@ -176,7 +184,7 @@ def run_job(job):
             else:
                 pat = derive_regex(rng, base)
                 try:
-                    re.compile(pat)
+                    rx_compile(pat)
                 except re.error:
                     continue
             if not pat:
@@ -240,8 +248,8 @@ def run_job(job):
                 if p2 != pat and "\\" not in pat:
                     try:
                         if o in ("=~", "!=~"):
-                            re.compile(pat)
-                            re.compile(p2)
+                            rx_compile(pat)
+                            rx_compile(p2)
                         e1, e2 = expected(o, pat, names), expected(o, p2, names)
                         conn = rng.choice(["or", "and"])
                         cond = "name %s %s %s name %s %s" % (o, lit, conn, o, model.quote_lit(p2))
@@ -274,7 +282,7 @@ def run_job(job):
                 conn = rng.choice(["or", "and"])
                 try:
                     if "=~" in (o1, o2) or "!=~" in (o1, o2):
-                        re.compile(pat)
+                        rx_compile(pat)
                     e1, e2 = expected(o1, pat, names), expected(o2, pat, names)
                 except re.error:
                     continue
@@ -311,7 +319,7 @@ def run_job(job):
 
 def main(chk):
     quick = chk.tier == "quick"
-    n = 200 if quick else 1600
+    n = 800 if quick else 2400
     jobs = [{"id": "d%d" % i, "seed": job_seed(chk.seed, "C12", i), "names": 28, "queries": 22 if quick else 50}
             for i in range(n)]
     chk.run_jobs(jobs, budget_s=300 if quick else 3000)
